@@ -114,6 +114,14 @@ def run(ctx):
         for f in sorted(os.listdir(cdir)):
             ops = [l for l in open(os.path.join(cdir, f)).read().splitlines() if l.strip() and not l.startswith("#") and not l.startswith("ORACLE")]
             corpus.append((f, ops))
+    # witnesses of the known findings of this property run on every check: the KNOWN-FINDING line
+    # is printed as long as the behaviour is there
+    kdir = os.path.join(lib.ROOT, "corpus", "known")
+    if os.path.isdir(kdir):
+        for f in sorted(os.listdir(kdir)):
+            if f.lower().startswith("k-%s" % prop.lower()):
+                ops = [l for l in open(os.path.join(kdir, f)).read().splitlines() if l.strip() and not l.startswith("#") and not l.startswith("ORACLE")]
+                corpus.append(("known/" + f, ops))
     for (kind, nq, nt, size) in mix:
         scenarios += [(kind, s) for s in router_gen.run_scenarios(iexe, rng, nt if ctx.thorough() else nq, kind, size)]
     traces = [("corpus:" + f, ops) + run_impl_batch(iexe, ops) for (f, ops) in corpus]
